@@ -127,6 +127,18 @@ def gen_pipeline(scratch, gen_dir):
     out.append("/-- names escaped when they name a C++ type: `reservedNames` and `reservedTypeNames` (go/ast) -/")
     out.append("def reserved_cpp_types : List String := [" + ", ".join(json.dumps(w) for w in rsv["cpp_types"]) + "]")
     out.append("")
+    # the same tables as lists of character codes: what the theorems of Props/C08 and the driver's identifier ops use (kernel evaluation
+    # of `String` / `Char` operations over tables of this size takes minutes; over `List Nat` it takes seconds)
+    def codes(w):
+        return "[" + ", ".join(str(ord(c)) for c in w) + "]"
+    only = sorted(set(rsv["cpp_types"]) - set(rsv.get("cpp", [])))
+    for lang, words in (("cpp", rsv.get("cpp", [])), ("python", rsv.get("python", [])), ("matlab", rsv.get("matlab", [])), ("cpp_types_only", only)):
+        assert all(c.isascii() and c.isprintable() for w in words for c in w), "reserved word outside printable ASCII"
+        out.append(f"def reserved_{lang}_codes : List (List Nat) := [" + ", ".join(codes(w) for w in words) + "]")
+        out.append("")
+    out.append("/-- `reservedNames` and `reservedTypeNames` -/")
+    out.append("def reserved_cpp_types_codes : List (List Nat) := reserved_cpp_codes ++ reserved_cpp_types_only_codes")
+    out.append("")
     vis = facts(scratch, "visitor")
     out.append("/-- every field of a dsl node struct that can hold child nodes: (struct, field, is it walked by VisitChildren) -/")
     out.append("def visitorFields : List (String × String × Bool) := [")
